@@ -172,11 +172,13 @@ def stage(chk, tier, seed, rnd, bdir, work):
     small = [r for r in rows if r["integral"] and r["pass"] == 0 and r["pre"]["nslots"] <= 6 and 1 <= r["it"] <= 3
              and verdicts[r["id"]][0] and r["outcome"] == "done"]
     small.sort(key=lambda r: (-sum(1 for o in r["ops"] if o["op"] == "split"), r["id"]))
-    pick = small[:6]
+    # the six cells of the quick tier (drawn from the first 90 cases) and, in the thorough tier, more cells whose passes have at most two
+    # operations and at most one split: the number of orders explodes with the splits (three splits already take TLC minutes per cell,
+    # four an hour)
+    nsplit = lambda r: sum(1 for o in r["ops"] if o["op"] == "split")
+    pick = [r for r in small if r["id"] < 910][:6]
     if tier != "quick":
-        # more cells, but only passes of at most two operations: three operations with splits in every order already take TLC minutes
-        # per cell, four take an hour
-        pick += [r for r in small[6:] if r["it"] <= 2][:14]
+        pick += [r for r in small if r not in pick and r["it"] <= 2 and nsplit(r) <= 1][:14]
     if len(pick) < 3:
         raise ModelError("vacuous: %d small passes for the exploration of all orders" % len(pick))
     spath = os.path.join(work, "rp-small.ndjson")
